@@ -107,6 +107,8 @@ where
     CS: BbsCiphersuite,
     CS::Expander: for<'a> ExpandMsg<'a>,
 {
+    #[cfg(feature = "verif_hooks")]
+    crate::utils::verif_hooks::log_gen_count(count);
     let api_id = api_id.unwrap_or(&[]);
 
     let seed_dst = [api_id, CS::GENERATOR_SEED_DST].concat();
